@@ -39,7 +39,7 @@ def validated_before_apply(ctx, p):
         lib.precedes(ctx, p + 'c reset-after-validation-loop', el, nx, [r], 'reset is reached only through the validation loop (LogReader::next)')
         # in the validation loop every Insert* arm calls validate_plan; DropTable arms continue
     arms = lib.fam_sites(F, el.path, ['column::Column::validate_plan'])
-    ctx.ob(p + 'd three-validation-arms', 'anchor', el.path, 'the validation pass calls Column::validate_plan in three arms (InsertIndex, InsertValue, InsertRefCount)', len(arms) == 3, 'sites: %s' % [(fb.path, s2) for fb, s2 in arms])
+    ctx.ob(p + 'd three-validation-arms', 'anchor', el.path, 'the validation pass calls Column::validate_plan (or one helper that does) in three arms (InsertIndex, InsertValue, InsertRefCount)', len(arms) == 3 or len(lib.sites_reaching(el, ['column::Column::validate_plan'])) == 3, 'sites: %s' % [(fb.path, s2) for fb, s2 in arms])
     cl = el.call_sites('log::Log::clear_replay_logs')
     # a failed validate_plan never reaches reset/appliers: error edge -> clear + return. Checked where the validation loop lives:
     # in enact_logs (reaching reset depends on each outcome) and, if the loop was moved to a helper, there too (running on to the
